@@ -175,7 +175,11 @@ pub fn valid_case(r: &Req) -> bool {
     if xs.iter().any(|x| x.ends_with("inf")) || (r.has("s") && r.s("s").ends_with("inf")) {
         if !matches!(t, "f64" | "of64")
             || !(matches!(r.f.as_str(), "vrank" | "vpartition" | "varg_partition")
-                || (r.f == "vquantile" && matches!(r.s("m"), "lower" | "higher"))) {
+                || (r.f == "vquantile" && matches!(r.s("m"), "lower" | "higher"))
+                // midpoint of two order statistics of which none or one sign is infinite:
+                // (inf + inf) / 2 = inf, (x + inf) / 2 = inf; inf + -inf is undefined
+                || (r.f == "vquantile" && r.s("m") == "midpoint"
+                    && !(xs.iter().any(|x| *x == "inf") && xs.iter().any(|x| *x == "-inf")))) {
             return false;
         }
     }
@@ -327,6 +331,9 @@ pub fn generate(tier: &str, rng: &mut Rng) -> (Vec<String>, bool) {
             }
             for q in ["0", "1/4", "1/2", "3/4", "1"] {
                 out.push(format!("vquantile t={} q={} m={} xs={}", t, q, ["lower", "higher"][si % 2], x));
+                if !(xs.iter().any(|v| v == "inf") && xs.iter().any(|v| v == "-inf")) {
+                    out.push(format!("vquantile t={} q={} m=midpoint xs={}", t, q, x));
+                }
             }
         }
     }
@@ -376,7 +383,7 @@ pub fn generate(tier: &str, rng: &mut Rng) -> (Vec<String>, bool) {
 
 pub fn rule(tier: &str) -> String {
     let thorough = tier == "thorough";
-    format!("vquantile, vmedian, vpercentile_of, vrank, vpartition, varg_partition on Vec input, element types f64 / Option<f64> / i32 / Option<i32> rotated (rank output Vec<f64> / Vec<Option<f64>>). Exhaustive stream: every series over {} up to length {} x [quantile: every q in {{j/8}} U {{j/(2(n-1))}} U {{1/16,15/16}} U {{-1/8,9/8}} (n = valid count; j/(n-1) has an integer index that may be inexact in f64 and is accepted with either neighbour, DESIGN 5.5) x 4 interpolations | median | percentile: scores {{null,-1,0,1,2,3,1/2}} x rank/weak/strict | rank: pct x rev | partition and arg-partition: every k in 0..=len+1 x sort x rev]; lengths {}..={} with the same series but a rotating 1/4..1/16 subset of the configurations. vpartition on the plain i32 type only with k+1 <= len (that type has no null to pad with). Unsorted partitions are compared as multisets; arg-partitions through the values their indices point at plus a validity flag (in range, distinct, non-null, -1 last). Random stream: lengths up to {}, values k/8 with |k| <= 16 or 64 (ties), 9 null patterns, q in j/64 or j/(n-1), j/(2(n-1)), k in 0..=len+1. Ranks, partitions, arg-partitions and the lower / higher quantiles also run on every series over {{null,-inf,2,+inf}} up to length 4 (5) containing an infinity (the model reads +-inf as +-2^1100). non-trivial = distinct request with >= 2 input elements and >= 1 non-null output token.",
+    format!("vquantile, vmedian, vpercentile_of, vrank, vpartition, varg_partition on Vec input, element types f64 / Option<f64> / i32 / Option<i32> rotated (rank output Vec<f64> / Vec<Option<f64>>). Exhaustive stream: every series over {} up to length {} x [quantile: every q in {{j/8}} U {{j/(2(n-1))}} U {{1/16,15/16}} U {{-1/8,9/8}} (n = valid count; j/(n-1) has an integer index that may be inexact in f64 and is accepted with either neighbour, DESIGN 5.5) x 4 interpolations | median | percentile: scores {{null,-1,0,1,2,3,1/2}} x rank/weak/strict | rank: pct x rev | partition and arg-partition: every k in 0..=len+1 x sort x rev]; lengths {}..={} with the same series but a rotating 1/4..1/16 subset of the configurations. vpartition on the plain i32 type only with k+1 <= len (that type has no null to pad with). Unsorted partitions are compared as multisets; arg-partitions through the values their indices point at plus a validity flag (in range, distinct, non-null, -1 last). Random stream: lengths up to {}, values k/8 with |k| <= 16 or 64 (ties), 9 null patterns, q in j/64 or j/(n-1), j/(2(n-1)), k in 0..=len+1. Ranks, partitions, arg-partitions and the lower / higher quantiles also run on every series over {{null,-inf,2,+inf}} up to length 4 (5) containing an infinity (the model reads +-inf as +-2^1100), the midpoint quantile on those with infinities of one sign only. non-trivial = distinct request with >= 2 input elements and >= 1 non-null output token.",
         if thorough { "{null,0,1,2,-3/2}" } else { "{null,0,1,2}" },
         if thorough { 5 } else { 4 },
         if thorough { 6 } else { 5 },
